@@ -420,6 +420,12 @@ def judge(before, after, op, spec):
             was_ref = {z for i in rmL for z in L0[i][fld]}
             if gone - was_ref:
                 out.append((f"{nm} not selected for removal is missing", f"{sorted(gone - was_ref)}"))
+            # ... and only Scenario.remove_lanelet with referenced_elements=True takes hanging signs / lights along
+            elif not (o == "s_remove" and op["kind"] == "lanelet" and op.get("refs", True)):
+                out.append((f"{nm} not selected for removal is missing",
+                            f"{sorted(gone)} left with the lanelets although "
+                            + ("referenced_elements=False" if o == "s_remove" else "LaneletNetwork.remove_* removes "
+                               "nothing but the element named")))
     # intersections
     if not set(X1) <= set(X0):
         return out + [("intersection appeared", f"{sorted(set(X1) - set(X0))}")]
